@@ -4,17 +4,17 @@ import json, subprocess, sys
 
 AI = "abstract interpretation over go/ssa"
 claimed = {
- "C01": ("proof", AI + ": product automaton of the run comparator with a dpkg reference over lazily revealed input strings (index cursors and suffix views); weight table; Compare composition table; bounded mode (exact pairs vs the reference) when the comparator leaves the tape model", "3.C01",
+ "C01": ("proof", AI + ": product automaton of the run comparator with a dpkg reference over lazily revealed input strings (index cursors and suffix views); weight table; Compare composition table; bounded mode (exact pairs vs the reference) when the comparator leaves the tape model; a limits table (parts of 300 bytes, numbers beyond 32 and 64 bits) through Compare as a whole, also on a GOARCH=386 load with 32 bit arithmetic", "3.C01",
          "Sign-equivalence with a transliteration of dpkg's verrevcmp is decided for ALL pairs of strings over the version alphabet (unbounded length) by exploring the finite product of the two abstract machines; the weight table and Compare's lexicographic composition are decided exhaustively. Proof modulo the trusted base. If a future comparator leaves the finite-state abstraction the check falls back to a bounded comparison and says so in the evidence."),
- "C02": ("proof", AI + ": equivalence to a reference total preorder (same product as C01, same bounded mode), Compare composition table, sort adapter tables (Less on 100 concrete pairs)", "3.C02",
+ "C02": ("proof", AI + ": equivalence to a reference total preorder (same product as C01, same bounded mode), Compare composition table, sort adapter tables (Less on 100 concrete pairs), the same limits table as C01", "3.C02",
          "Reflexivity, antisymmetry, transitivity and congruence are inherited from sign-equality with the reference order (a lexicographic order on canonical keys, hence a total preorder); the adapter methods are decided by interpretation."),
  "C03": ("other", AI + " of Parse / Unmarshal* / String / Marshal* on a generated family of version strings against a Policy 5.6.12 reference (accept/reject and fields), character predicates on every byte, reset of all fields, codec identity, render->parse round trip; GOARCH=386 load for the epoch width", "3.C03",
          "Accept/reject and the parsed fields, alphabets, reset, codecs and the render/parse round trip are decided on a family of strings generated from the grammar's token classes and the positions the parser distinguishes; strings outside the family are not decided."),
- "C04": ("other", AI + ": dependency.Parse explored on a lazily revealed input of unbounded length into a finite transition system; regular-language inclusion / emptiness against Policy 7.1 languages; token-effect events; error-discipline dataflow; bounded mode (grammar words, malformed words and every short string, exact) when the parser leaves the model", "3.C04",
+ "C04": ("other", AI + ": dependency.Parse explored on a lazily revealed input of unbounded length into a finite transition system; regular-language inclusion / emptiness against Policy 7.1 languages; token-effect events; error-discipline dataflow; bounded mode (grammar words, malformed words and every short string, exact) when the parser leaves the model; exact fields with names of 15 to 257 bytes", "3.C04",
          "Acceptance of a conservative Policy grammar and rejection of twelve malformed classes are decided for inputs of every length on the extracted automaton; token hygiene (no blank inside a token, no empty token), the operator set, error propagation and totality are decided; exactness of the produced AST is not."),
  "C05": ("other", "field read/write sets over the SSA call trees, conversion scan, events of the parser transition system, " + AI + " of parse/render/parse on architecture names and on a generated family of fields", "3.C05",
          "Renderer field coverage, byte fidelity, and absence of stored-but-unrendered entries are universal; the architecture and field fixpoints are decided on exhaustive component combinations / a generated family."),
- "C06": ("proof", AI + " on a universe exhaustive by data independence: complete decision tables with callee oracles; loop-shape check for induction over list length; wildcard names parsed by ParseArch and asked against concrete names of four ABIs; SatisfiedBy also end to end on numbers that are no versions", "3.C06",
+ "C06": ("proof", AI + " on a universe exhaustive by data independence: complete decision tables with callee oracles; loop-shape check for induction over list length; wildcard names parsed by ParseArch and asked against concrete names of four ABIs; SatisfiedBy also end to end on numbers that are no versions; concrete architectures when Is / Matches are inlined", "3.C06",
          "Complete decision tables of Is/IsWildcard/Matches/GetPossibilities/GetAllPossibilities/GetSubstvars/SatisfiedBy against the property's specification, exhaustive up to renaming."),
  "C11": ("other", AI + " of NewParagraphReader / NewDecoder / Signer over scenarios (plain/signed x four keyrings x every outcome of clearsign.Decode, io.ReadAll and CheckDetachedSignature), readers and byte slices carrying provenance, reader objects keeping their identity (a reader the verification has drained must not be the one left for parsing); two clearsigned messages back to back; armor that does not start the input, read with a keyring", "3.C11",
          "Exactly the wrapper obligations that turn openpgp.CheckDetachedSignature's guarantee into the property are decided on every scenario path; the OpenPGP library is trusted."),
@@ -22,15 +22,15 @@ claimed = {
          "Algorithm tables (incl. freshness of hash objects), verifier algorithm choice for every name x hash length, fan-out wiring, byte counting and the Close verdict are decided; the digests themselves are the standard library's."),
  "C13": ("other", AI + " of LoadAr / Ar.Next / the header parser on a symbolic 60 byte header (opaque byte tokens, symbolic sizes, linear offsets), cross-checked (and replaced, when the reader leaves the symbolic model) by interpretation on 90 concrete archives against an ar(5) reference reader", "3.C13",
          "Column provenance of every entry field, name trimming, member reader placement, offset arithmetic, freshness, global and header magic, short reads are decided for every header; byte equality of the delivered data rests on io.SectionReader."),
- "C14": ("other", AI + " of the .deb loader on scripted archives: the ar iterator, bufio, the six decompressor constructors, archive/tar, control.Unmarshal and Close are provenance-recording oracles; every iteration order of the member map is explored; decompressor table read from the interpreted package initialiser", "3.C14",
+ "C14": ("other", AI + " of the .deb loader on scripted archives: the ar iterator, bufio, the six decompressor constructors, archive/tar, control.Unmarshal and Close are provenance-recording oracles; every iteration order of the member map is explored; decompressor table read from the interpreted package initialiser; LoadFile interpreted with os.Open / Lstat / Stat as oracles", "3.C14",
          "Format checks, codec wiring for all 36 encoding combinations, extension slicing, control lookup, untouched data stream, determinism and index completeness are decided on the scenario family; tar/decompressor behaviour is trusted."),
  "C15": ("other", AI + " of Ar.Next on a symbolic header (progress >= 60 bytes per member with size >= 0 on the path, header magic, short reads), of LoadAr/Next on 90 concrete archives, with a concrete size column against a ReaderAt that ends inside or right after the data (truncated members refused), and of the loader on scripted archives over every map iteration order (loop exit, determinism, error texts included); reachability of fatal exits and unconditional panics (a panic statement behind a guard is decided by the interpreted families, not by reachability); constant-index bounds", "3.C15",
          "Termination bound and consistency clauses are decided for every header and every scripted archive; a member whose recorded size runs past the end of the input is refused (probe-read scenarios); a ReaderAt that changes between Next and the read is not covered."),
  "C16": ("other", AI + " of CheckDebsig on scripted member maps (roles, decoys, both library verdicts) over every map iteration order, with Seek, io.NewSectionReader, io.MultiReader and CheckDetachedSignature as recording oracles (the signed stream is made of readers of the verifier's own over whole members; the shared member readers are never moved); the loader interpreted on the same scenarios", "3.C16",
          "The wrapper obligations that turn the OpenPGP library's guarantee into the property are decided on the scenario family; the library is trusted."),
- "C19": ("other", AI + " of OrderDSCForBuild on exact source descriptions, once with a recording oracle for the topological sorter (every AddEdge/Sort outcome enumerated) and once end to end with the sorter interpreted (returned order checked against the dependency edges; cycle; sources built directly and decoded from .dsc documents); struct-tag, map-order and package-state rules", "3.C19",
+ "C19": ("other", AI + " of OrderDSCForBuild on exact source descriptions, once with a recording oracle for the topological sorter (every AddEdge/Sort outcome enumerated) and once end to end with the sorter interpreted (returned order checked against the dependency edges; cycle; sources built directly and decoded from .dsc documents, one of them with a Build-Depends line of 5600 bytes; a non-gnu build architecture; three sampled orders for large maps); struct-tag, map-order and package-state rules", "3.C19",
          "Edges per build-dependency field (with C06 selection semantics interpreted, not mocked), edge direction, node-before-edge order, error propagation and result construction are decided; the sorter itself is trusted."),
- "C20": ("other", AI + " of the six upload methods and internal.Copy with every filesystem call replaced by an effect-recording oracle forking into success and failure; the constructors interpreted for the path they record", "3.C20",
+ "C20": ("other", AI + " of the six upload methods and internal.Copy with every filesystem call replaced by an effect-recording oracle forking into success and failure; the constructors interpreted for the path they record (no symbolic link resolution)", "3.C20",
          "Order of effects (control file last), failure propagation, destination paths, handle update, the handle recording the path the caller gave (no symbolic link resolution), containment of listed names and cleanup after a failed copy are decided on every path of the oracle tree; real filesystem behaviour is not."),
  "C07": ("other", AI + " of ParagraphReader.Next / All with the buffered reader replaced by a scripted oracle over 18 line kinds (all scripts up to length 3, with and without final newline), compared with a deb822 reference model; who-reads rule", "3.C07",
          "The reader's line classification, folding, duplicate handling, EOF handling and the Order/Values invariant are decided for every combination of reader state class and line kind; documents outside the line kinds are not."),
